@@ -74,7 +74,24 @@ Proof. intros HB Hwf Hsq Hpos. apply Nat.eqb_eq in Hsq. apply Nat.ltb_lt in Hpos
     intros H; injection H as <-.
     assert (Hs : shape e = (fst (shape e), fst (shape e))) by (destruct (shape e); cbn [fst snd] in *; congruence).
     destruct (exact_diag_correct (d_ragged_fixed df) e B (fst (shape e)) k d0 Hwf Hs HB ltac:(lia) E) as [Hd _]. exact Hd. }
-  destruct al as [|tp tq]; [exact Hrun|]. destruct (auto_exact tp tq (fst (shape e)) (snd (shape e))); [exact Hrun|discriminate]. Qed.
+  destruct al as [|tp tq|]; [exact Hrun| |].
+  - destruct (auto_exact tp tq (fst (shape e)) (snd (shape e))); [exact Hrun|]. destruct (tp * 1000 <=? tq)%Z; discriminate.
+  - destruct (auto_exact 1 1000000 (fst (shape e)) (snd (shape e))); [exact Hrun|discriminate]. Qed.
+
+(* the generic rule completely: which of {true diagonal, ValueError, AssertionError, stochastic estimate} comes out is decided
+   by the size, the offset and the algorithm object alone (this is what the large-size correspondence stream compares) *)
+Definition generic_outcome (df : dflags) (B n : nat) (al : alg) (k : Z) (dtrue : list R) : derr + list R :=
+  let run := if (negb (d_ragged_fixed df) && ragged B n k)%bool then inl DValue else inr dtrue in
+  match al with
+  | AExact => run
+  | AAuto tp tq => if auto_exact tp tq n n then run else if (tp * 1000 <=? tq)%Z then inl DAssert else inl DStoch
+  | ADefault => if auto_exact 1 1000000 n n then run else inl DStoch
+  end.
+Theorem generic_diag_cases df B al (e : op) n k : (1 <= B)%nat -> (1 <= n)%nat -> wf e = true -> shape e = (n, n) ->
+  generic_diag df B al e k = generic_outcome df B n al k (true_diag n n (den e) k).
+Proof. intros HB Hn Hwf Hs. unfold generic_diag, generic_outcome. rewrite Hs. cbn [fst snd]. rewrite Nat.eqb_refl.
+  rewrite (exact_diag_cases (d_ragged_fixed df) B n k (den e) _ (col_oracle_matmat e n Hwf Hs) HB Hn).
+  destruct (negb (d_ragged_fixed df) && ragged B n k)%bool; reflexivity. Qed.
 
 (* ---------- Sum *)
 Definition sum_go (D : op -> derr + list R) : list op -> option (list R) -> derr + list R :=
